@@ -335,6 +335,80 @@ func C10(p *ir.Program, r *report.R) {
 		r.Check("K1", "trie.(*Database).reference/dedup-not-for-roots", p.Pos(rf.Pos()), okDedup && nEarly == 1, "the duplicate-reference shortcut is taken only when parent != EmptyHash (roots are counted every time)")
 	}
 
+	// ---- B6: what is a proof element is decided by hashing the node now --------------------------------------------
+	// A node is a proof element iff its parent refers to it by hash, i.e. iff its encoding is not embedded.
+	// Prove decides that by running the hasher on the node (hashChildren + store), like LeafProof — never by
+	// asking the node for a CACHED hash: nodes written since the last Hash()/Commit() have none and would
+	// be dropped from the proof of a key that is present.
+	{
+		pv := p.Func("libs/trie", "Trie.Prove")
+		nPut := 0
+		for _, put := range ir.Calls(pv, "db.Putter.Put") {
+			nPut++
+			sts := ir.Calls(pv, "trie.hasher.store")
+			okS := len(sts) >= 1
+			for _, st := range sts {
+				if !(strings.HasPrefix(Arg(st, 1), "trie.hasher.hashChildren(") && Arg(st, 2) == "nil" && Arg(st, 3) == "false") {
+					okS = false
+				}
+				if !ir.Precedes(st.(ssa.Instruction), put.(ssa.Instruction)) {
+					okS = false
+				}
+			}
+			// the element test is the type of store's result (or the root position)
+			elem := false
+			for _, b := range pv.Blocks {
+				for _, in := range b.Instrs {
+					if ifi, ok := in.(*ssa.If); ok {
+						for _, a := range ir.CondAtoms(ifi.Cond, true) {
+							if strings.HasPrefix(a, "trie.hasher.store(") && strings.HasSuffix(a, "#0.(trie.hashNode)#1") {
+								elem = true
+							}
+						}
+					}
+				}
+			}
+			r.Check("K5", "trie.(*Trie).Prove/element-test-recomputes", p.InstrPos(put.(ssa.Instruction)), okS && elem, "proof elements are the nodes hasher.store(hashChildren(n), nil, false) turns into a hashNode (no cached hash consulted)")
+		}
+		noCache := len(ir.Calls(pv, "trie.node.cache")) == 0 && len(ir.Calls(pv, "trie.*.cache")) == 0
+		r.Check("K5", "trie.(*Trie).Prove/no-cached-hash", p.Pos(pv.Pos()), noCache && nPut >= 1, "Prove does not read node.cache()")
+	}
+
+	// ---- B7: writer and reader agree on what is embedded ---------------------------------------------------------
+	// hasher.store leaves a node inside its parent iff its encoding is shorter than a hash (len < 32);
+	// decodeRef accepts an embedded node of at most hashLen bytes. A writer that embeds 32- or 33-byte nodes
+	// produces tries that cannot be reopened from disk and roots that differ from the canonical ones.
+	{
+		st := p.Func("libs/trie", "hasher.store")
+		nE := 0
+		for _, rt := range ir.Returns(st) {
+			fs := ir.FactsAt(rt.Instr)
+			if !ir.HasFact(fs, "!force") || ir.Render(rt.Results[0]) != "n" {
+				continue
+			}
+			nE++
+			var about []string
+			for _, a := range fs {
+				if strings.Contains(a.Atom, "len(") {
+					about = append(about, a.Atom)
+				}
+			}
+			okE := len(about) == 1 && (ir.MatchAtom("lt(len(*),32)", about[0]) || ir.MatchAtom("le(len(*),31)", about[0]))
+			r.Check("K5", "trie.(*hasher).store/embeds-only-below-hash-length", p.InstrPos(rt.Instr), okE, fmt.Sprintf("the node stays embedded exactly under len(encoding) < 32: %v", about))
+		}
+		r.Check("K5", "trie.(*hasher).store/embed-return", p.Pos(st.Pos()), nE == 1, fmt.Sprintf("%d embed return", nE))
+		dr := p.Func("libs/trie", "decodeRef")
+		okD := false
+		for _, rt := range ir.Returns(dr) {
+			if strings.HasPrefix(ir.AbstractResult(rt.Results[2]), "nonnil:") || strings.Contains(ir.Render(rt.Results[2]), "oversized") {
+				if ir.HasFact(ir.FactsAt(rt.Instr), "lt(32,*)") {
+					okD = true
+				}
+			}
+		}
+		r.Check("K5", "trie.decodeRef/rejects-embedded-above-hash-length", p.Pos(dr.Pos()), okD, "an embedded node larger than 32 bytes is refused")
+	}
+
 	// ---- B5: Prove walks the whole key -------------------------------------------------------
 	// VerifyProof consumes nodes until the key is exhausted; Prove must therefore collect nodes
 	// until the key is exhausted (or the path ends): the loop condition is len(key) > 0 && tn != nil.
